@@ -17,6 +17,10 @@ Proof. vm_compute. reflexivity. Qed.
 Lemma resume_rolls_back : RESUME_ROLLS_BACK_ARGS = true.
 Proof. vm_compute. reflexivity. Qed.
 
+(* coroutine.create registers the WHOLE coroutine block (header, context, storage and stack) with the collector *)
+Lemma gc_registers_whole_block : GC_REGISTERS_WHOLE_CORO_BLOCK = true.
+Proof. vm_compute. reflexivity. Qed.
+
 Lemma storage_size_pos : 0 < STORAGE_SIZE.
 Proof. vm_compute. lia. Qed.
 
